@@ -24,7 +24,7 @@ func (r SatResult) String() string { return [...]string{"unsat", "sat", "unknown
 
 // SolverStats are shared by all sessions of a run.
 type SolverStats struct {
-	Queries, SatN, UnsatN, UnknownN, Errors, Restarts int64
+	Queries, SatN, UnsatN, UnknownN, Errors, Restarts, Fallbacks int64
 	Nanos                                             int64
 }
 
@@ -40,6 +40,7 @@ type Solver struct {
 	stats     *SolverStats
 	log       io.Writer // optional transcript
 	dead      bool
+	lastModel map[string]uint64 // model of a one-shot fallback answer
 }
 
 func NewSolver(bin []string, timeoutMs int, stats *SolverStats, log io.Writer) *Solver {
@@ -63,7 +64,11 @@ func (s *Solver) start() {
 	s.nDefs = 0
 	s.dead = false
 	if strings.Contains(s.bin[0], "z3") {
-		s.send(fmt.Sprintf("(set-option :timeout %d)", s.timeoutMs))
+		inc := s.timeoutMs
+		if inc > 4000 {
+			inc = 4000 // the incremental core gets a short budget; hard queries go to fresh one-shot solvers
+		}
+		s.send(fmt.Sprintf("(set-option :timeout %d)", inc))
 	}
 	s.send("(set-option :produce-models true)")
 }
@@ -134,6 +139,7 @@ func (s *Solver) readLine() (string, error) {
 
 // Check decides the conjunction of lits (Bool terms).
 func (s *Solver) Check(lits []*Term) SatResult {
+	s.lastModel = nil
 	var names []string
 	for _, l := range lits {
 		if l == TTrue {
@@ -178,6 +184,16 @@ func (s *Solver) Check(lits []*Term) SatResult {
 		atomic.AddInt64(&s.stats.UnsatN, 1)
 		return Unsat
 	case "unknown":
+		// The incremental core gave up: re-ask fresh, non-incremental solvers (portfolio).
+		if r, ok := s.oneShot(lits); ok {
+			atomic.AddInt64(&s.stats.Fallbacks, 1)
+			if r == Sat {
+				atomic.AddInt64(&s.stats.SatN, 1)
+			} else {
+				atomic.AddInt64(&s.stats.UnsatN, 1)
+			}
+			return r
+		}
 		atomic.AddInt64(&s.stats.UnknownN, 1)
 		return Unknown
 	}
@@ -187,8 +203,106 @@ func (s *Solver) Check(lits []*Term) SatResult {
 	return Unknown
 }
 
+// oneShot decides lits with fresh solver processes on a self-contained script.
+func (s *Solver) oneShot(lits []*Term) (SatResult, bool) {
+	var sb strings.Builder
+	seen := map[int]bool{}
+	decl := map[string]bool{}
+	var vars []string
+	var def func(t *Term)
+	def = func(t *Term) {
+		if t.op == OpConst {
+			return
+		}
+		if t.op == OpVar {
+			if !decl[t.name] {
+				decl[t.name] = true
+				vars = append(vars, t.name)
+				fmt.Fprintf(&sb, "(declare-const %s %s)\n", t.name, t.sort.SMT())
+			}
+			return
+		}
+		if seen[t.id] {
+			return
+		}
+		seen[t.id] = true
+		for _, a := range t.args {
+			def(a)
+		}
+		if t.op == OpUF && !decl["uf:"+t.name] {
+			decl["uf:"+t.name] = true
+			var as []string
+			for _, a := range t.args {
+				as = append(as, a.sort.SMT())
+			}
+			fmt.Fprintf(&sb, "(declare-fun %s (%s) %s)\n", t.name, strings.Join(as, " "), t.sort.SMT())
+		}
+		fmt.Fprintf(&sb, "(define-fun t%d () %s %s)\n", t.id, t.sort.SMT(), t.body())
+	}
+	for _, l := range lits {
+		def(l)
+		fmt.Fprintf(&sb, "(assert %s)\n", l.ref())
+	}
+	sb.WriteString("(check-sat)\n")
+	if len(vars) > 0 {
+		sb.WriteString("(get-value (" + strings.Join(vars, " ") + "))\n")
+	}
+	script := sb.String()
+	secs := s.timeoutMs / 1000
+	if secs < 10 {
+		secs = 10
+	}
+	for _, bin := range [][]string{{"z3", fmt.Sprintf("-T:%d", secs), "-in"}, {"cvc5", "--produce-models", fmt.Sprintf("--tlimit=%d", secs*1000), "--lang=smt2", "-"}, {"z3-new", fmt.Sprintf("-T:%d", secs), "-in"}} {
+		cmd := exec.Command(bin[0], bin[1:]...)
+		cmd.Stdin = strings.NewReader("(set-option :produce-models true)\n" + script)
+		out, _ := cmd.Output()
+		txt := string(out)
+		if s.log != nil {
+			io.WriteString(s.log, "; one-shot "+bin[0]+" -> "+strings.SplitN(strings.TrimSpace(txt), "\n", 2)[0]+"\n")
+		}
+		first := strings.SplitN(strings.TrimSpace(txt), "\n", 2)
+		switch first[0] {
+		case "unsat":
+			return Unsat, true
+		case "sat":
+			s.lastModel = map[string]uint64{}
+			if len(first) > 1 {
+				toks := tokenizeSexp(first[1])
+				i := 0
+				if len(toks) > 0 && toks[0] == "(" {
+					i = 1
+					for i < len(toks) && toks[i] == "(" {
+						i++
+						name := toks[i]
+						i++
+						v, ok := parseValue(toks, &i)
+						if i < len(toks) && toks[i] == ")" {
+							i++
+						}
+						if ok {
+							s.lastModel[name] = v
+						}
+					}
+				}
+			}
+			return Sat, true
+		}
+	}
+	return Unknown, false
+}
+
 // Model returns the bits of each variable; must follow a Sat answer.
 func (s *Solver) Model(vars []*Term) map[string]uint64 {
+	if s.lastModel != nil {
+		m := s.lastModel
+		s.lastModel = nil
+		for _, v := range vars {
+			if _, ok := m[v.name]; !ok {
+				m[v.name] = 0
+			}
+		}
+		return m
+	}
 	m := map[string]uint64{}
 	var ask []*Term
 	for _, v := range vars {
